@@ -933,6 +933,14 @@ def run(ctx: Any, prog: Program) -> None:
                         bare = not (isinstance(par_, ast.Compare) or isinstance(par_, ast.Call) or isinstance(par_, ast.Attribute))
                         ctx.check('C09.P1', not bare, kvm, t_, f'{q_} tests `{U(t_.test)[:50]}`: the truth value of the name - a keyvalue named "" (legal, and exported as `""`) is taken for a root, so e.g. its copy is a '
                                   'root: the name and the braces are gone from the export', func=q_, text=f'{q_}: root test `{U(t_.test)[:30]}` compares with None')
+            # ... and `not self._real_name` / `bool(self._real_name)` wherever they stand (`return not self._real_name` in is_root)
+            for u_ in [x for x in walk_no_nested(f_) if (isinstance(x, ast.UnaryOp) and isinstance(x.op, ast.Not) and isinstance(x.operand, ast.Attribute) and x.operand.attr in ('_real_name', '_folded_name'))
+                       or (isinstance(x, ast.Call) and dotted(x.func) == 'bool' and len(x.args) == 1 and isinstance(x.args[0], ast.Attribute) and x.args[0].attr in ('_real_name', '_folded_name'))]:
+                if any(u_ is y for t_ in walk_no_nested(f_) if isinstance(t_, (ast.If, ast.IfExp, ast.While, ast.Assert)) for y in ast.walk(t_.test)):
+                    continue
+                n_rt += 1
+                ctx.check('C09.P1', False, kvm, u_, f'{q_} evaluates `{U(u_)[:40]}`: the truth value of the name - a keyvalue named "" (legal, and exported as `""`) is taken for a root', func=q_,
+                          text=f'{q_}: root test `{U(u_)[:30]}` compares with None')
     if n_rt < 3:
         raise AnalysisError(f'P1: only {n_rt} tests on the name found in Keyvalues (is_root, export and serialise confirmed by hand)')
 
